@@ -201,7 +201,9 @@ func H02() {
 	vSummary(true)
 	var p *Password
 	var err error
+	vDrawLimit(MaxTrials*L, "Generate makes more than MaxTrials attempts (more than MaxTrials*Length draws)")
 	panicked := vTry(func() { p, err = r.Generate() })
+	vDrawLimit(1<<30, "")
 	vAssert(!panicked, "Generate panicked")
 	vReach("returned")
 	nd := vDrawCount()
